@@ -230,6 +230,7 @@ pub struct Model {
     pub fault_op: Option<(u32, u32)>, // (op index, live objects) when the first fault fired
     pub prev_buffer: std::collections::BTreeSet<ObjId>,
     pub last_threshold: usize,
+    pub bulk_clean_of: Option<ObjId>, // cleaner map whose kept Cleanables are being clean()ed right now
     pub initial_threshold: usize, // byte threshold of a fresh configuration, read at the start of the run (0 = unknown)
     pub fresh_cfg: Knobs,         // the other settings of that fresh configuration
     pub fault_counters_final: [u32; FaultKind::COUNT],
@@ -392,6 +393,7 @@ impl World {
                 fault_op: None,
                 prev_buffer: Default::default(),
                 last_threshold: 0,
+                bulk_clean_of: None,
                 initial_threshold: 0,
                 fresh_cfg: Knobs { auto: true, buffered: 0, permille: 100 },
                 fault_counters_final: [0; FaultKind::COUNT],
